@@ -84,11 +84,7 @@ def rule_A(ck, name, f):
     rets = f.returns()
     ks = set()
     for r in rets:
-        tup = None
-        for c in walk(r['e']):
-            if c['k'] == 'call' and c.get('f') == 'std::make_tuple':
-                tup = c
-                break
+        tup = ir.tuple_node(r['e'])
         if tup is None:
             ck.ob('A.budget', key, f.where(r), False, 'return is not std::make_tuple(iterations, residual)')
             return None
@@ -353,7 +349,7 @@ def rule_B(ck, name, f, kdecl):
     R = N = None
     early, final = [], []
     for r in rets:
-        tup = [c for c in walk(r['e']) if c['k'] == 'call' and c.get('f') == 'std::make_tuple'][0]
+        tup = ir.tuple_node(r['e'])
         a0, a1 = unwrap(tup['a'][0]), unwrap(tup['a'][1])
         if a0['k'] == 'lit':
             early.append((r, a1))
